@@ -194,7 +194,7 @@ def gen_file(rng, strangers):
     """One generated file: (lines, mode, records in file order, order, contigs, typed, shape)."""
     typed = rng.random() < 0.5
     order = rng.choice(["Coordinate", "BarcodesAndCoordinate", "Coordinate", "BarcodesAndCoordinate", "Coordinate", "BarcodesAndCoordinate", "Unsorted", "Unknown", None])
-    contigs = rng.choice([None, ["1", "2", "10", "X"], ["chr1", "chr2", "chr10"], ["10", "2", "X", "1"], ["2", "10", "1", "X"], SC.LONG, SC.LONG_CHR, ["0", "1", "2"], ["2", "0", "1"]])
+    contigs = rng.choice([None, ["1", "2", "10", "X"], ["chr1", "chr2", "chr10"], ["10", "2", "X", "1"], ["2", "10", "1", "X"], SC.LONG, SC.LONG_CHR, ["0", "1", "2"], ["2", "0", "1"], ["1", "2", "10", "1"]])
     chroms = contigs or rng.choice([["1", "2", "10", "X"], ["chr1", "chr2", "chr10"], ["0", "1", "X"]])     # (a chromosome named 0 is the integer 0 under a typed scheme)
     recs = gen_recs(rng, rng.randrange(0, 7), chroms)
     # records that differ from another one in exactly one component of the key (every component in turn)
